@@ -86,7 +86,15 @@ def run_case(ctx, name, params):
             exc = (TRANSIENT.get(ch) or OTHER[ch])("scripted failure %s attempt %d of design %d" % (ch, k + 1, d))
             return exc
         return None
-    p = hooks.make_problem(n=n, m=1, bounds=bxs, fn=fn, cons=cons, script=script,
+    S = None
+    eg = None
+    if procs > 1:
+        # failures of different designs must overlap in time: park every worker at objective entry and let a seeded
+        # scheduler decide who goes next
+        from .. import sched
+        S = sched.Scheduler(params["seed"], r.choice(sched.Scheduler.POLICIES), expected=min(procs, len(scripts)))
+        eg = lambda c: S.gate("obj_enter")
+    p = hooks.make_problem(n=n, m=1, bounds=bxs, fn=fn, cons=cons, script=script, entry_gate=eg,
                            criteria=["maximize" if maximize else "minimize"])
     vrng.install(vrng.SeededRandom(params["seed"]))
     alg = DummyAlgorithm(p)
@@ -102,6 +110,17 @@ def run_case(ctx, name, params):
         alg.evaluate(batch)
     except BaseException as e:
         caught = e
+    finally:
+        if S is not None:
+            S.shutdown()
+            # when the batch was aborted by an exception, other workers may still be inside the objective: let them finish
+            import time as _t
+            t_end = _t.time() + 1.0
+            while _t.time() < t_end and any(c.result is None and c.exc is None for c in list(p.calls)):
+                _t.sleep(0.002)
+            _t.sleep(0.005)
+            ctx.count("threaded_executions")
+            ctx.count("scheduler_grants", S.grants)
     ctx.count("executions")
     if any(scripts):
         ctx.nontrivial((tuple(scripts), procs, n))
@@ -168,8 +187,9 @@ def run_case(ctx, name, params):
         if procs > 1 and fatal is not None and not calls:
             continue   # never started because another worker's exception ended the batch
         expected_calls = k + (1 if out in ("ok", "other") else 0)
-        if procs > 1 and fatal is not None and len(calls) < expected_calls:
-            continue   # cut short by the batch abort
+        if procs > 1 and fatal is not None and (len(calls) < expected_calls or (calls and calls[-1].result is None and calls[-1].exc is None)
+                                                 or ind.state == Individual.State.IN_PROGRESS):
+            continue   # cut short by the batch abort (or still in flight when the caller got the exception)
         ctx.count("design_checks")
         if len(calls) != expected_calls:
             key = "retry/attempts/" + ("more_than_five" if len(calls) > 5 else "fewer_than_five" if out == "exhausted" else "count")
@@ -207,8 +227,23 @@ def run_case(ctx, name, params):
                     ctx.violation("retry/final_marker", "feasibility marker does not belong to the finally stored vector",
                                   wit({"design": d, "marker": ind.costs_signed[-1], "g": cons(ind.vector)}))
                     return
-            if any(tuple(ind.vector) == fv for fv in failed_vecs) and k > 0 and False:
-                pass
+            if not constrained:
+                # equal feasibility means equal markers: a design that needed retries must carry the same marker as one
+                # that succeeded at once
+                ctx.count("retried_marker_checks")
+                ref_marker = True      # Individual default: feasible=0.0 -> marker (not 0.0) is True for every unconstrained design
+                fresh = [b for dd, b in enumerate(batch) if model[dd][0] == 0 and model[dd][1] == "ok" and b.state == Individual.State.EVALUATED]
+                if fresh:
+                    ref_marker = fresh[0].costs_signed[-1]
+                elif k > 0:
+                    probe = Individual(list(ind.vector))
+                    DummyAlgorithm(hooks.make_problem(n=n, m=1, bounds=bxs, fn=fn)).evaluate([probe])
+                    ref_marker = probe.costs_signed[-1]
+                if bool(ind.costs_signed[-1]) != bool(ref_marker):
+                    ctx.violation("retry/final_marker_differs_from_untroubled_design", "a design that needed retries carries another "
+                                  "feasibility marker (%r) than a design that succeeded at once (%r) although the problem has no "
+                                  "constraints" % (ind.costs_signed[-1], ref_marker), wit({"design": d, "failures": k}))
+                    return
         else:
             if ind.state == Individual.State.EVALUATED:
                 ctx.violation("retry/failed_design_marked_evaluated", "design whose evaluation raised is marked evaluated", wit({"design": d}))
